@@ -63,7 +63,7 @@ Qed.
 (* ---- facts about the reference table alone ---- *)
 Definition op_fid (o : op) : option N :=
   match o with
-  | OWalk f _ _ | OOpen f _ | OCreate f _ _ | ORead f | OWrite f | OStat f | OWStat f
+  | OWalk f _ _ | OOpen f _ | OCreate f _ _ | ORead f _ | OWrite f | OStat f | OWStat f
   | OClunk f | ORemove f => Some f
   | _ => None
   end.
@@ -182,8 +182,8 @@ Proof.
     by injection Hst as <- <-.
 Qed.
 
-Lemma sp_read_ok t f ts t' n :
-  sp_step t (ORead f) ts = (t', ROk n) →
+Lemma sp_read_ok t f cnt ts t' n :
+  sp_step t (ORead f cnt) ts = (t', ROk n) →
   ∃ b m dn, sp_lookup t f = Some b ∧ b_open b = Some (m, dn) ∧ N.land m 3 ≠ 1.
 Proof.
   intros Hst. cbn in Hst. unfold sp_read in Hst. spec_cases; try discriminate;
@@ -303,8 +303,8 @@ Section clauses.
     by eapply sp_create_ok.
   Qed.
 
-  Lemma cl_read_ok f n :
-    o = ORead f → r = ROk n →
+  Lemma cl_read_ok f cnt n :
+    o = ORead f cnt → r = ROk n →
     ∃ b m dn, fid_of s f = Some b ∧ b_open b = Some (m, dn) ∧ N.land m 3 ≠ 1.
   Proof.
     intros -> ->. sspec.
